@@ -177,6 +177,29 @@ def run(ctx: Ctx) -> None:
     rep.rule("C04.R4", "REMOVE / RENAME / LINK targets in sync_paths are terms of the current path")
 
     commit_rules(ctx, top, "C04.R1")
+    if rep.prop == "C04":
+        # the has_blob filter (F23) is a stand-in for "the paths this run kept": a blob stored by an EARLIER evaluation under the key of a keep that this run did
+        # not reach makes its path be committed again
+        rep.rule("C04.R12", "the paths committed are the paths this run kept: the restriction of the path map is a run-time record of the keeps that ran, not only the "
+                            "presence of a blob under the planned key (an earlier evaluation may have stored it)")
+        from .common import effect_sites as _es, path_map_value as _pmv
+        _syncs = _es(ctx, top, ["sync_paths"])
+        _fl = flow_of(prog, top)
+        _req = _pmv(top)
+        n12 = 0
+        for _sc in _syncs:
+            _arg = _sc.args[0] if _sc.args else None
+            if isinstance(_req, ast.Name) and isinstance(_arg, ast.Name) and _presence_filtered(ctx, top, _fl, _arg, _req):
+                n12 += 1
+                rep.bad("C04.R12", top.qname, "the committed paths are restricted by a record of the keeps that ran", top.loc(_sc),
+                        [f"{top.loc(_sc)}: `{unparse(_sc, 60)}`: the only restriction of the path map is has_blob(key)",
+                         "`if reach: dds.keep('/w1/x', h)`: evaluate with reach true; dds.keep('/w1/x', other) re-points the path; evaluate with reach false: the keep does not run, "
+                         "h's blob of the first evaluation is still there, '/w1/x' is committed to it again and serves 'from-h'"], "presence-proxy",
+                        what="a keep that the run did not reach is committed again when an earlier evaluation left its blob: it takes back a path that was re-pointed since")
+            elif _arg is not None:
+                n12 += 1
+                rep.ok("C04.R12", top.qname, "the committed paths are not restricted by blob presence alone", top.loc(_sc))
+        rep.floor("C04.R12", n12, 1)
     # ---- R2 -------------------------------------------------------------------------------
     load = prog.func("dds._api.load")
     if load is None:
